@@ -7,7 +7,7 @@ from rv.props import common as C
 from rv import oracles as O, refmodels as R, gen
 
 LEVEL = "exploration"
-RULE = ("bin-completion on hardpack / repeat / threshold / random / planted integer instances with 1 <= v <= binsize, n <= 12; the number of bins "
+RULE = ("bounded-exhaustive: every multiset of 1..7 (thorough 8) items over 1..C, C in 4..7 (completion reported as grid_exhaustive_complete_shards); then bin-completion on hardpack / repeat / threshold / random / planted integer instances with 1 <= v <= binsize, n <= 12; the number of bins "
         "from Partition, Sums and BinCount is compared with the exact optimum (O2), with first-fit-decreasing and best-fit-decreasing; "
         "non-trivial = best-fit-decreasing uses more bins than the optimum (bin-completion had to improve on its starting point); distinct on (binsize, sorted values)")
 ASSUMPTIONS = ["O2 is an independent exact branch-and-bound (cross-checked against planted instances in rv.oracles.selfcheck)", "integer values, list presentation"]
@@ -17,7 +17,7 @@ FLOORS = {"quick": {"distinct_nontrivial": 300}, "thorough": {"distinct_nontrivi
 def plan(tier, seed):
     n = 16 if tier == "quick" else 64
     b = 45 if tier == "quick" else 120
-    return [{"seed": seed * 1000 + i, "shard": i, "budget_s": b, "max_cases": 10 ** 7, "watchdog_s": b * 5 + 120} for i in range(n)]
+    return [{"seed": seed * 1000 + i, "shard": i, "nshards": n, "budget_s": b, "max_cases": 10 ** 7, "watchdog_s": b * 5 + 120} for i in range(n)]
 
 
 def judge(case, ctx):
@@ -75,6 +75,17 @@ def run_shard(spec, rng, ctx):
     end = C.budget(spec)
     i = 0
     try:
+        # bounded-exhaustive small scope: every multiset of 1..7 (thorough 8) items over 1..C for C in 4..7 (at most 30% of the budget)
+        grid_end = C.now() + 0.3 * float(spec.get("budget_s", 60))
+        complete = True
+        for Cs in (4, 5, 6, 7):
+            for ms in C.sharded(C.multisets(range(1, Cs + 1), 8 if spec.get("tier") == "thorough" else 7), spec):
+                if C.now() > grid_end:
+                    complete = False
+                    break
+                judge({"kind": "pack", "alg": "bc", "C": Cs, "values": list(ms), "cls": "grid_exhaustive", "pres": "list", "pres_seed": 0}, ctx)
+                ctx.counters["grid_exhaustive_instances"] += 1
+        ctx.counters["grid_exhaustive_complete_shards"] += int(complete)
         while i < spec["max_cases"] and C.now() < end:
             judge(draw(rng), ctx)
             i += 1
